@@ -2,7 +2,7 @@
 From Coq Require Import List String Bool Permutation Sorted.
 From Helm Require Import Common.Assoc Values.Tree Render.SortLemmas Render.Pipeline Render.PipelineProofs Render.PipelineInst
      Render.Files Render.FilesProofs Render.FuncMap Gen.FuncMap.
-From Helm Require Import Render.Engine Render.EngineProofs Render.EngineNames Render.EngineEquiv Render.FilesMore
+From Helm Require Import Render.Engine Render.EngineProofs Render.EngineNames Render.EngineEquiv Render.EngineDeps Render.FilesMore
      Render.Funcs Render.FuncsProofs Render.FuncMap2 Render.Mini Render.EngineExamples Misc.PanicsRec Gen.C05Funcs.
 From Helm Require Chart.Paths.
 Import ListNotations.
@@ -188,6 +188,27 @@ Theorem C05_render_values_order :
       engine_render_tree file_val tset parse ustate exec t0 u0 c top = engine_render_tree file_val tset parse ustate exec t0 u0 c top'.
 Proof. exact engine_render_values_order. Qed.
 Print Assumptions C05_render_values_order.
+
+(* The order of the dependency lists.  Engine code ranges over Dependencies(), a slice - but where the
+   slice is filled from a Go map (the loader before fix 14399c3, F10) its order is arbitrary.  For a
+   well-formed tree, [dperm c c'] (the dependency lists re-ordered at every level) does not reach the
+   rendered map, the final state or the error. *)
+Theorem C05_render_dependency_order :
+  forall (file_val : string -> val) (tset : Type) (parse : tset -> string -> string -> option tset)
+         (ustate : Type) (exec : tset -> ustate -> string -> val -> option (string * ustate)),
+    (forall t u k v v', veq v v' -> exec t u k v = exec t u k v') ->
+    forall (t0 : tset) (u0 : ustate) (c c' : chart) (top : vmap),
+      wf_chart c -> dperm c c' ->
+      engine_render_tree file_val tset parse ustate exec t0 u0 c top = engine_render_tree file_val tset parse ustate exec t0 u0 c' top.
+Proof. exact engine_render_dependency_order. Qed.
+Print Assumptions C05_render_dependency_order.
+
+Example C05_dependency_order_witness :
+  wf_chart ex_chart /\ dperm ex_chart ex_chart_swapped /\
+  engine_render_tree VStr mset_t (m_parse ex_srcs) rst (m_exec ex_opts) m_t0 rinit ex_chart ex_top
+  = engine_render_tree VStr mset_t (m_parse ex_srcs) rst (m_exec ex_opts) m_t0 rinit ex_chart_swapped ex_top.
+Proof. exact ex_dependency_order_witness. Qed.
+Print Assumptions C05_dependency_order_witness.
 
 Theorem C05_veq_of_permutation :
   forall m m' : vmap, NoDup (map fst m) -> Permutation m m' -> veq (VMap m) (VMap m').
